@@ -419,10 +419,11 @@ class Runner:
                 self.client.callbacks.clear()
             except Exception:
                 pass
-        if self.pos < len(self.events) or self.open_line:
+        self.died = self.pos < len(self.events) or self.open_line
+        if self.died:
             # the loop died before the script ended: keep what happened visible
             while len(self.steps) < len(self.events):
-                self.steps.append({'calls': [['loop-died']], 'cache': [], 'reported': 0, 'regs': []})
+                self.steps.append({'calls': [], 'cache': [], 'reported': 0, 'regs': [], 'died': True})
         return self.steps
 
 
@@ -598,26 +599,26 @@ def gen_line(rng, desc, now):
     names, classes = err_names()
     mods = desc['modules']
     r = rng.random()
-    if r < 0.04:
+    if r < 0.025:
         return rng.choice([{'hex': 'ff fe 75 70'.replace(' ', '')}, {'hex': b'update m:value \xc3'.hex()}])
-    if r < 0.08:
+    if r < 0.05:
         m = rng.choice(list(mods))
         return rng.choice(['update %s:value [1, {' % m, 'update %s:value {bad' % m, 'error_update %s:value ["a",' % m])
-    action = rng.choice(UPDATE_ACTIONS * 3 + ['update', 'update', 'error_change', 'error_change', 'done', 'pong', 'active',
-                                              'error_do', 'describing', 'error_', 'Update', 'changed '])
+    action = rng.choice(UPDATE_ACTIONS * 6 + ['update'] * 4 + ['error_change', 'error_change', 'done', 'pong', 'active',
+                                                                'error_do', 'describing', 'error_', 'Update', 'changed '])
     # identifier
     mname = rng.choice(list(mods))
     accs = mods[mname]['accessibles']
     aname = rng.choice(list(accs))
     dinfo = accs[aname]['datainfo']
     r = rng.random()
-    if r < 0.55:
+    if r < 0.62:
         ident = f'{mname}:{aname}'
-    elif r < 0.75:
+    elif r < 0.8:
         ident = mname
         aname = 'target' if action == 'changed' else 'value'
         dinfo = accs.get(aname, {}).get('datainfo')
-    elif r < 0.85:
+    elif r < 0.9:
         ident = rng.choice([f'{mname}:nosuch', f'zz:{aname}', f'{mname}:{aname[1:] or "x"}', f'{mname}:_{aname}', 'zz',
                             f'{mname}:{aname}:x', f'{mname}:', f':{aname}', mname.upper() + 'x'])
         dinfo = None
@@ -666,14 +667,17 @@ def gen_case(rng, desc, big):
     events = []
     now = rng.choice([100.0, 1000.25, 5.0])
     live = []
+    for cbid in rng.sample(sorted(cbs), rng.randint(0, min(3, len(cbs)))):     # mostly some observers from the start
+        events.append(['reg', int(cbid)])
+        live.append(int(cbid))
     n = rng.randint(3, 40 if big else 22)
     for _ in range(n):
         r = rng.random()
-        if r < 0.22 and cbs:
+        if r < 0.15 and cbs:
             cbid = int(rng.choice(list(cbs)))
             events.append(['reg', cbid])
             live.append(cbid)
-        elif r < 0.30 and cbs:
+        elif r < 0.22 and cbs:
             cbid = rng.choice(live) if live and rng.random() < 0.8 else int(rng.choice(list(cbs)))
             events.append(['unreg', cbid])
             if cbid in live:
@@ -995,7 +999,7 @@ def run(ctx):
             c = json.load(open(os.path.join(cdir, fn)))
             if c.get('kind') == 'history':
                 cases.append(('corpus', c['desc'], c['case']))
-    for _ in range(ctx.budget(1500, 40000)):
+    for _ in range(ctx.budget(2500, 40000)):
         i = rng.randrange(len(descs))
         cases.append((i, descs[i], gen_case(rng, descs[i], big)))
 
@@ -1023,8 +1027,10 @@ def run(ctx):
                 raise RuntimeError(f'driver error: {model} {verdict} for {json.dumps(case)[:2000]}')
             # distribution
             eff = idle = 0
+            prev_cache = []
             for ev, st in zip(wired, steps):
                 if ev[0] == 'line':
+                    res.count('line.cache=' + ('changed' if st['cache'] != prev_cache else 'same'))
                     kind = ev[2][0] if ev[2] else 'garbage'
                     res.count('line.' + (kind if kind in UPDATE_ACTIONS + ['garbage', 'error_change'] else 'other'))
                     if len(st['calls']) >= 2:
@@ -1034,6 +1040,9 @@ def run(ctx):
                     res.count('line.outcome=' + ('calls' if st['calls'] else 'reported' if st['reported'] else 'silent'))
                 else:
                     res.count('ev.' + ev[0])
+                    if ev[0] == 'reg':
+                        res.count('reg.immediate_calls=%s' % min(len(st['calls']), 3))
+                prev_cache = st['cache']
             if eff and idle and steps and steps[-1]['cache']:
                 res.nontriv(wired)
             if len(res.samples) < 3 and eff and len(case['events']) <= 6:
@@ -1047,15 +1056,22 @@ def run(ctx):
                         res.disagreements.append({'case': {'kind': 'history', 'desc': desc, 'case': case}, 'event': i,
                                                   'wired': wired[i], 'model': mv, 'impl': iv})
                         break
+            if any(st.get('died') for st in steps):
+                res.violations.append({'sig': 'C12:rx-loop-died', 'what': f'the receive loop ended before the scripted lines did: {case["events"]}',
+                                       'case': {'kind': 'history', 'desc': desc, 'case': case}})
+                continue
             # judge
             if verdict['bad'] is not None:
                 def fails(events, cbs=case['cbs'], desc=desc, desc_key=desc_key, maps=maps):
                     _s, _m, v, _w = judge_case(ctx, desc, desc_key, maps, {'cbs': cbs, 'events': events})
                     return v.get('bad') is not None and v.get('clause') == verdict['clause']
-                small = ddmin(case['events'], fails, max_tests=120) if shrunk[0] < 3 else case['events']
+                if shrunk[0] < 3:
+                    small = ddmin(case['events'], fails, max_tests=120)
+                    scase = {'cbs': case['cbs'], 'events': small}
+                    ssteps, _m, sv, swired = judge_case(ctx, desc, desc_key, maps, scase)
+                else:       # enough minimised examples: keep the rest as found
+                    small, scase, ssteps, sv, swired = case['events'], case, steps, verdict, wired
                 shrunk[0] += 1
-                scase = {'cbs': case['cbs'], 'events': small}
-                ssteps, _m, sv, swired = judge_case(ctx, desc, desc_key, maps, scase)
                 where = describe_bad(scase, swired, sv.get('bad'))
                 res.violations.append({'sig': f'C12:{sv.get("clause") or verdict["clause"]}:{where}',
                                        'what': f'history breaks the first sentence of C12 ({sv.get("clause")}) at event {sv.get("bad")}: '
@@ -1112,7 +1128,7 @@ def run(ctx):
 
     # ---------- (b) end to end (implementation only) ----------
     before = set(threading.enumerate())
-    nvals = ctx.budget(150, 5000)
+    nvals = ctx.budget(200, 5000)
     per_node = 10
     done = 0
     while done < nvals:
